@@ -21,6 +21,10 @@ COMPILERS = {"rel": "g++", "asan": "clang++", "tsan": "clang++"}
 # property table. engine "rc": a rapidcheck executable built in the `rel` flavour.
 # quick/thorough: (multiplier on each sub-check's base case count, number of parallel seeds)
 PROPS = {
+    "C18": dict(engine="rc", exe="c18", quick=(1, 6), thorough=(20, 16),
+                extra_builds=[("rel", ["gwb-grid"], {"VERIF_GWB_GRID": "wb/bin/gwb-grid"})],
+                assumptions=["ASCII VTU output (6 significant digits): node values are compared with 2e-5 relative tolerance at the exact lattice node; a node whose library answer changes between the printed and the exact position is skipped",
+                             "sphere grids: mesh validity, Depth and node values are checked, the node lattice itself is not re-derived"]),
     "C17": dict(engine="rc", exe="c17", quick=(1, 6), thorough=(20, 16),
                 extra_builds=[("rel", ["gwb-dat"], {"VERIF_GWB_DAT": "wb/bin/gwb-dat"})],
                 assumptions=["values are compared as the text an output stream with default precision produces (what the tool uses)",
